@@ -38,6 +38,7 @@ class State(object):
         self.guards = []
         self.writes = set()
         self.fresh_objs = set()
+        self.loop_idx = []
 
     def fork(self):
         s = State()
@@ -49,6 +50,7 @@ class State(object):
         s.guards = list(self.guards)
         s.writes = set(self.writes)
         s.fresh_objs = set(self.fresh_objs)
+        s.loop_idx = list(self.loop_idx)
         return s
 
     def assume(self, f):
@@ -103,6 +105,54 @@ class Executor(object):
         self.stats = {'paths': 0, 'pruned': 0}
         self.notes = []
         self._raised = []
+        self.hook_nodes = {}           # id(call node) -> [hook]
+        self._bind_hooks()
+
+    # ------------------------------------------------------------------ ghost
+    def _bind_hooks(self):
+        """Bind the case's ghost hooks to call sites: key (callee text, n-th occurrence in
+        document order or None for every occurrence)."""
+        hooks = getattr(self.case, 'hooks', None) or []
+        if not hooks:
+            return
+        calls = {}
+        for node in ast.walk(self.fn):
+            if isinstance(node, ast.Call):
+                try:
+                    txt = ast.unparse(node.func)
+                except Exception:
+                    continue
+                calls.setdefault(txt, []).append(node)
+        for txt in calls:
+            calls[txt].sort(key=lambda n: (n.lineno, n.col_offset))
+        for h in hooks:
+            nodes = calls.get(h.target, [])
+            if h.nth is not None:
+                if h.nth >= len(nodes):
+                    raise Undecided('contract does not bind: ghost hook on call #%d of %s, which %s '
+                                    'does not contain' % (h.nth, h.target, self.qualname))
+                nodes = [nodes[h.nth]]
+            elif not nodes:
+                raise Undecided('contract does not bind: ghost hook on %s, which %s does not call'
+                                % (h.target, self.qualname))
+            for n in nodes:
+                self.hook_nodes.setdefault(id(n), []).append(h)
+
+    def run_hooks(self, st, node, res):
+        for h in self.hook_nodes.get(id(node), ()):
+            c = self.ctx(st)
+            c.call_result = res
+            c.loop_idx = list(st.loop_idx)
+            h.fn(c)
+            for f in c.extra:
+                st.pc.append(f)
+
+    def ghost_written_in(self, body):
+        names = set()
+        for node in ast.walk(ast.Module(body=body, type_ignores=[])):
+            for h in self.hook_nodes.get(id(node), ()):
+                names.update(h.writes)
+        return names
 
     # ------------------------------------------------------------------ loops
     def _number_loops(self, body, prefix):
@@ -183,6 +233,7 @@ class Executor(object):
             v = fresh(spec, name.replace('.', '_'))
             if isinstance(spec, IntT):
                 st.fp.landmark(v.t)
+            st.pc += wf(v)
             return v
         raise Undecided('bad parameter spec for %s: %r' % (name, spec))
 
@@ -203,6 +254,9 @@ class Executor(object):
         self.params0 = dict(st.env)
         self.pre_heap = {a: dict(f) for a, f in st.heap.items()}
         c = self.ctx(st)
+        g0 = getattr(self.case, 'ghost', None)
+        if g0 is not None:
+            st.ghost.update(g0(c))
         for f in self.case.setup(c):
             st.pc.append(f)
         for (label, f) in self.case.requires(c):
@@ -225,7 +279,29 @@ class Executor(object):
                 raise Undecided('%s outside a loop' % kind)
         return self.obls
 
+    def name_value(self, st, v, hint):
+        """Give a compound ground term a name (fresh constant), so that contract formulas and
+        quantifier patterns mention constants rather than store/lambda towers."""
+        if isinstance(v, (PyTuple, PyDict)) or v.t is None or not is_ground(v.ty):
+            return v
+        if not z3.is_expr(v.t) or z3.is_const(v.t) or isinstance(v.ty, (IntT, FloatT, BoolT)):
+            return v
+        nv = fresh(v.ty, hint)
+        st.pc.append(nv.t == v.t)
+        return nv
+
+    def name_state(self, st):
+        for k in list(st.env.keys()):
+            st.env[k] = self.name_value(st, st.env[k], k)
+        for a in st.heap:
+            for f in list(st.heap[a].keys()):
+                st.heap[a][f] = self.name_value(st, st.heap[a][f], f)
+        for g in list(st.ghost.keys()):
+            st.ghost[g] = self.name_value(st, st.ghost[g], 'ghost_' + g)
+
     def ctx(self, st, **kw):
+        if kw.pop('name', True):
+            self.name_state(st)
         c = Ctx(self, self.params0, self.pre_heap, st.heap, env=st.env, ghost=st.ghost,
                 case=self.case, **kw)
         c.fp = st.fp
@@ -240,6 +316,7 @@ class Executor(object):
         c = self.ctx(st2)
         c.proving = True
         c.fp = st2.fp
+        res = self.name_value(st2, res, 'result')
         posts = self.case.ensures(c, res)
         hints = self.case.hints(c, res)
         for h in hints:
@@ -526,9 +603,10 @@ class Executor(object):
         # 1. invariant holds on entry
         c0 = self.ctx(st, i=z3.IntVal(0), seq=it, pre_env=pre_env)
         c0.loop_pre_heap = pre_heap_loop
-        for (label, f) in spec.inv(c0):
-            self.oblige(st, 'inv-init', 'loop%s/%s' % (ordn, label), f, s)
+        inv0 = spec.inv(c0)
         st.pc += c0.extra
+        for (label, f) in inv0:
+            self.oblige(st, 'inv-init', 'loop%s/%s' % (ordn, label), f, s)
         havoc_fields = set()
         attempt = 0
         while True:
@@ -540,10 +618,14 @@ class Executor(object):
             hs = st.fork()
             hs.writes = set()
             self.havoc(hs, assigned, havoc_fields, pre_env)
+            for gname in self.ghost_written_in(s.body):
+                gv = hs.ghost[gname]
+                hs.ghost[gname] = fresh(gv.ty, 'ghost_' + gname)
             i = z3.Int(fresh_name('it%s' % ordn.replace('.', '_')))
             hs.fp.landmark(i)
             body_st = hs.fork()
             body_st.pc += [i >= 0, i < n_len]
+            body_st.loop_idx = st.loop_idx + [i]
             ci = self.ctx(body_st, i=i, seq=it, pre_env=pre_env)
             ci.loop_pre_heap = pre_heap_loop
             for (label, f) in spec.inv(ci):
@@ -605,6 +687,7 @@ class Executor(object):
                 v = pre_env[nm]
                 if is_ground(v.ty):
                     st.env[nm] = fresh(v.ty, nm)
+                    st.pc += wf(st.env[nm])
                     if isinstance(v.ty, IntT):
                         st.fp.landmark(st.env[nm].t)
                 elif isinstance(v.ty, (NoneT, StrConstT, FuncT)):
@@ -617,6 +700,7 @@ class Executor(object):
             v = st.heap[a][f]
             if is_ground(v.ty):
                 st.heap[a][f] = fresh(v.ty, f)
+                st.pc += wf(st.heap[a][f])
             else:
                 raise Undecided('loop writes non-ground field %s' % f)
 
@@ -628,6 +712,12 @@ class Executor(object):
             return Iter(L_len(ty, t), lambda i: V(ty.elem, L_get(ty, t, i)), src=v)
         if isinstance(v.ty, (SetT, DictT)):
             return self.enum_keys(st, v)
+        if isinstance(v.ty, OptT) and isinstance(v.ty.t, (ListT, SetT, DictT)):
+            self.oblige(st, 'safety', 'iterate-over-None', z3.Not(O_is_none(v.ty, v.t)), node)
+            return self.as_iter(st, V(v.ty.t, O_val(v.ty, v.t)), node)
+        if isinstance(v.ty, NoneT):
+            self.oblige(st, 'safety', 'iterate-over-None', z3.BoolVal(False), node)
+            return Iter(z3.IntVal(0), lambda i: None)
         raise Undecided('cannot iterate over %r (line %d)' % (v.ty, node.lineno))
 
     def enum_keys(self, st, v, with_values=False):
@@ -1020,13 +1110,13 @@ class Executor(object):
             a, b = args
             if FP.is_num(z3.simplify(b)):
                 return out
-            q = log.ops[-1].e
+            q = log.last_op.e
             for cd in (Fraction(1, 2), Fraction(1, 2 ** 33)):
                 for ca in (4, 2 ** 33):
                     out.append(inst('quot_abs', q, b, a, rv(cd), rv(ca)))
         elif opname == 'sqrt':
             (a,) = args
-            s_ = log.ops[-1].e
+            s_ = log.last_op.e
             for c in (2 ** 17, 2 ** 32, 2 ** 34):
                 out.append(inst('sqrt_upper', s_, a, rv(c)))
         return out
@@ -1281,7 +1371,10 @@ class Executor(object):
 
     # ------------------------------------------------------------------ calls
     def expr_Call(self, st, e):
-        return self.natives.call(self, st, e)
+        r = self.natives.call(self, st, e)
+        if self.hook_nodes:
+            self.run_hooks(st, e, r)
+        return r
 
     def expr_Lambda(self, st, e):
         return V(FUNC, ('lambda', e))
@@ -1370,6 +1463,8 @@ class Executor(object):
             res = fresh(rt, 'ret_' + qualname.split('.')[-1])
             if isinstance(rt, IntT):
                 st.fp.landmark(res.t)
+            for f in wf(res):
+                st.assume(f)
         c2 = Ctx(self, bound, pre_heap, st.heap, case=case)
         c2.fp = st.fp
         for (label, f) in case.ensures(c2, res):
